@@ -43,10 +43,6 @@ func init() {
 		{"Policy.baseGroupFor", baseGroupFacts(cp)},
 		{"Policy.pendingIncCount", pendingIncCount("submission/distributor.go")},
 		{"Policy.rootChoice", rootChoiceFacts("submission/distributor.go")},
-		{"Policy.temporallyCompatible", condKernel("loglist3/logfilter.go", "LogList.TemporallyCompatible",
-			[]string{"TemporalInterval.EndExclusive", "TemporalInterval.StartInclusive"}, "Policy.temporallyCompatible", "(notAfter start limit : Int)",
-			Spec{Kind: "i64", Repl: map[string]string{"cert.NotAfter": "notAfter",
-				"l.TemporalInterval.EndExclusive": "limit", "l.TemporalInterval.StartInclusive": "start"}})},
 		{"Policy.postBatchInterval", constKernel("submission/races.go", "PostBatchInterval", "Policy.postBatchInterval", durLit)},
 		{"Policy.postInterval", funcKernel("submission/races.go", "postInterval", "Policy.postInterval",
 			"(idx_ parallelStart_ dur_ : Int)", "Int", Spec{Kind: "i64"})},
@@ -63,27 +59,73 @@ func init() {
 func incCountKernel(rel, fn, leanName string) func() string {
 	return func() string {
 		fd := mustFunc(rel, fn)
+		// the tagless switch all of whose clauses are `incCount = N`
 		ss := findStmts(fd, func(s ast.Stmt) bool {
 			sw, ok := s.(*ast.SwitchStmt)
-			return ok && sw.Tag == nil && sw.Init != nil && strings.Contains(src(sw.Init), "lifetimeInMonths(cert)")
+			if !ok || sw.Tag != nil || len(sw.Body.List) == 0 {
+				return false
+			}
+			for _, c := range sw.Body.List {
+				cc := c.(*ast.CaseClause)
+				if len(cc.Body) != 1 {
+					return false
+				}
+				as, ok := cc.Body[0].(*ast.AssignStmt)
+				if !ok || len(as.Lhs) != 1 || src(as.Lhs[0]) != "incCount" {
+					return false
+				}
+			}
+			return true
 		})
 		if len(ss) != 1 {
-			panic(bail{fmt.Sprintf("%s: expected one tagless switch on lifetimeInMonths(cert) in %s, found %d", rel, fn, len(ss))})
+			panic(bail{fmt.Sprintf("%s: expected one tagless switch assigning incCount in %s, found %d", rel, fn, len(ss))})
 		}
 		sw := ss[0].(*ast.SwitchStmt)
-		ini, ok := sw.Init.(*ast.AssignStmt)
-		if !ok || len(ini.Lhs) != 1 || src(ini.Rhs[0]) != "lifetimeInMonths(cert)" {
-			panic(bail{fmt.Sprintf("%s: unsupported switch init %s", rel, src(sw.Init))})
+		// the variable holding lifetimeInMonths(cert): bound in the switch's init statement or by an assignment before it
+		mvar := ""
+		bind := func(st ast.Stmt) {
+			if a, ok := st.(*ast.AssignStmt); ok && len(a.Lhs) == 1 && len(a.Rhs) == 1 && src(a.Rhs[0]) == "lifetimeInMonths(cert)" {
+				mvar = src(a.Lhs[0])
+			}
 		}
-		t := &tr{sp: Spec{Kind: "i64"}}
+		if sw.Init != nil {
+			bind(sw.Init)
+		}
+		if mvar == "" {
+			cands := findStmts(fd, func(s ast.Stmt) bool {
+				a, ok := s.(*ast.AssignStmt)
+				return ok && len(a.Lhs) == 1 && len(a.Rhs) == 1 && src(a.Rhs[0]) == "lifetimeInMonths(cert)" && a.Pos() < sw.Pos()
+			})
+			if len(cands) == 1 {
+				bind(cands[0])
+				// it must not be reassigned
+				if n := len(findStmts(fd, func(s ast.Stmt) bool {
+					a, ok := s.(*ast.AssignStmt)
+					if ok {
+						for _, l := range a.Lhs {
+							if src(l) == mvar {
+								return true
+							}
+						}
+					}
+					if id, ok := s.(*ast.IncDecStmt); ok && src(id.X) == mvar {
+						return true
+					}
+					return false
+				})); n != 1 {
+					panic(bail{fmt.Sprintf("%s: %s is assigned %d times in %s", rel, mvar, n, fn)})
+				}
+			}
+		}
+		if mvar == "" {
+			panic(bail{fmt.Sprintf("%s: the incCount switch of %s does not test a variable bound to lifetimeInMonths(cert)", rel, fn)})
+		}
+		t := &tr{sp: Spec{Kind: "i64", Repl: map[string]string{mvar: "m_", "lifetimeInMonths(cert)": "m_"}}}
 		out, def := "", ""
 		for _, c := range sw.Body.List {
 			cc := c.(*ast.CaseClause)
-			if len(cc.Body) != 1 {
-				panic(bail{fmt.Sprintf("%s: case body is not a single assignment: %s", rel, src(cc))})
-			}
-			as, ok := cc.Body[0].(*ast.AssignStmt)
-			if !ok || as.Tok != token.ASSIGN || len(as.Lhs) != 1 || src(as.Lhs[0]) != "incCount" {
+			as := cc.Body[0].(*ast.AssignStmt)
+			if as.Tok != token.ASSIGN {
 				panic(bail{fmt.Sprintf("%s: case body is not `incCount = N`: %s", rel, src(cc))})
 			}
 			v, ok := intLit(as.Rhs[0])
@@ -97,10 +139,11 @@ func incCountKernel(rel, fn, leanName string) func() string {
 			if def != "" {
 				panic(bail{fmt.Sprintf("%s: default clause is not last in %s", rel, fn)})
 			}
-			if len(cc.List) != 1 {
-				panic(bail{fmt.Sprintf("%s: multi-expression case unsupported: %s", rel, src(cc))})
+			var conds []string
+			for _, e := range cc.List {
+				conds = append(conds, t.expr(e))
 			}
-			out += "if " + t.expr(cc.List[0]) + " then " + v + "\n  else "
+			out += "if " + strings.Join(conds, " || ") + " then " + v + "\n  else "
 		}
 		if def == "" {
 			panic(bail{fmt.Sprintf("%s: switch in %s has no default", rel, fn)})
@@ -113,8 +156,8 @@ func incCountKernel(rel, fn, leanName string) func() string {
 		if len(bg) != 1 || src(bg[0].(*ast.AssignStmt).Rhs[0]) != "BaseGroupFor(approved, incCount)" {
 			panic(bail{fmt.Sprintf("%s: %s does not call BaseGroupFor(approved, incCount) exactly once", rel, fn)})
 		}
-		return fmt.Sprintf("/-- generated from %s func %s: `switch %s; {…}` feeding BaseGroupFor(approved, incCount) -/\ndef %s (%s : Int) : Int :=\n  %s%s\n",
-			rel, fn, src(sw.Init), leanName, leanIdent(src(ini.Lhs[0])), out, def)
+		return fmt.Sprintf("/-- generated from %s func %s: the switch on lifetimeInMonths(cert) feeding BaseGroupFor(approved, incCount) -/\ndef %s (m_ : Int) : Int :=\n  %s%s\n",
+			rel, fn, leanName, out, def)
 	}
 }
 
@@ -358,13 +401,15 @@ type lockRow struct {
 type lockWalker struct {
 	spec  guardSpec
 	rel   string
-	vars  map[string]string // identifier -> (base) type name, where declared in a way we can read
+	vars  map[string]string            // identifier -> (base) type name, where declared in a way we can read
 	ftyp  map[string]map[string]string // struct -> field -> (base) type name, for the package
 	held  int
 	fn    string
 	ctor  bool
 	rows  *[]lockRow
 	nlits int
+	// calls: lock mode held at every call `x.m(...)` of a method of the struct (callee "T.m" -> modes), for the entry-mode fixpoint
+	calls map[string][]int
 	// lenient: do not refuse selectors of unknown base type (used by the unlisted-writes scan, where every field name counts)
 	lenient bool
 }
@@ -479,6 +524,11 @@ func (w *lockWalker) reads(e ast.Node) {
 		case *ast.FuncLit:
 			w.funcLit(x)
 			return false
+		case *ast.CallExpr:
+			if sel, ok := x.Fun.(*ast.SelectorExpr); ok && w.calls != nil && w.isSpec(sel.X) {
+				k := w.spec.typ + "." + sel.Sel.Name
+				w.calls[k] = append(w.calls[k], w.held)
+			}
 		case *ast.SelectorExpr:
 			if w.isSpec(x.X) {
 				if w.isGuarded(x.Sel.Name) {
@@ -622,7 +672,11 @@ func (w *lockWalker) stmt(s ast.Stmt) {
 		}
 		w.reads(x.Call)
 	case *ast.GoStmt:
+		// the new goroutine holds no lock
+		saved := w.held
+		w.held = 0
 		w.reads(x.Call)
+		w.held = saved
 	case *ast.AssignStmt:
 		if x.Tok != token.DEFINE && x.Tok != token.ASSIGN {
 			// op-assignment: read and write
@@ -747,90 +801,120 @@ func lockTable() func() string {
 			if err != nil {
 				panic(bail{fmt.Sprintf("read %s: %v", sp.dir, err)})
 			}
+			// Unexported methods that are only ever called with the guard held (e.g. a helper extracted from a locked region)
+			// are walked with that lock mode on entry: entry mode = the weakest mode over the method's call sites, to a fixpoint.
+			entry := map[string]int{}
+			var specRows []lockRow
 			foundType, foundCtors := false, map[string]bool{}
-			ftyp := map[string]map[string]string{}
-			for _, e := range ents {
-				if e.IsDir() || !strings.HasSuffix(e.Name(), ".go") || strings.HasSuffix(e.Name(), "_test.go") {
-					continue
-				}
-				for _, d := range parseFile(rp(filepath.Join(sp.dir, e.Name()))).Decls {
-					gd, ok := d.(*ast.GenDecl)
-					if !ok {
+			for pass := 0; pass < 5; pass++ {
+				specRows = nil
+				calls := map[string][]int{}
+				ftyp := map[string]map[string]string{}
+				for _, e := range ents {
+					if e.IsDir() || !strings.HasSuffix(e.Name(), ".go") || strings.HasSuffix(e.Name(), "_test.go") {
 						continue
 					}
-					for _, s := range gd.Specs {
-						ts, ok := s.(*ast.TypeSpec)
+					for _, d := range parseFile(rp(filepath.Join(sp.dir, e.Name()))).Decls {
+						gd, ok := d.(*ast.GenDecl)
 						if !ok {
 							continue
 						}
-						if st, ok := ts.Type.(*ast.StructType); ok {
-							m := map[string]string{}
-							for _, fl := range st.Fields.List {
-								for _, n := range fl.Names {
-									m[n.Name] = baseTypeName(fl.Type)
-								}
-							}
-							ftyp[ts.Name.Name] = m
-						}
-					}
-				}
-			}
-			for _, e := range ents {
-				if e.IsDir() || !strings.HasSuffix(e.Name(), ".go") || strings.HasSuffix(e.Name(), "_test.go") {
-					continue
-				}
-				rel := filepath.Join(sp.dir, e.Name())
-				f := parseFile(rp(rel))
-				for _, d := range f.Decls {
-					switch x := d.(type) {
-					case *ast.GenDecl:
-						for _, s := range x.Specs {
+						for _, s := range gd.Specs {
 							ts, ok := s.(*ast.TypeSpec)
-							if !ok || ts.Name.Name != sp.typ {
+							if !ok {
 								continue
 							}
-							st, ok := ts.Type.(*ast.StructType)
-							if !ok {
-								panic(bail{fmt.Sprintf("%s: %s is not a struct", rel, sp.typ)})
-							}
-							have := map[string]string{}
-							for _, fl := range st.Fields.List {
-								for _, n := range fl.Names {
-									have[n.Name] = src(fl.Type)
+							if st, ok := ts.Type.(*ast.StructType); ok {
+								m := map[string]string{}
+								for _, fl := range st.Fields.List {
+									for _, n := range fl.Names {
+										m[n.Name] = baseTypeName(fl.Type)
+									}
 								}
-							}
-							mt, ok := have[sp.mutex]
-							if !ok || (mt != "sync.Mutex" && mt != "sync.RWMutex") {
-								panic(bail{fmt.Sprintf("%s: %s.%s is not a sync.Mutex/RWMutex (%q)", rel, sp.typ, sp.mutex, mt)})
-							}
-							for _, g := range sp.fields {
-								if _, ok := have[g]; !ok {
-									panic(bail{fmt.Sprintf("%s: %s has no field %s", rel, sp.typ, g)})
-								}
-							}
-							foundType = true
-						}
-					case *ast.FuncDecl:
-						if x.Body == nil {
-							continue
-						}
-						w := &lockWalker{spec: sp, rel: rel, vars: map[string]string{}, ftyp: ftyp, fn: funcQualName(x), rows: &rows}
-						for _, c := range sp.ctors {
-							if c == w.fn {
-								w.ctor = true
-								foundCtors[c] = true
+								ftyp[ts.Name.Name] = m
 							}
 						}
-						if x.Recv != nil && len(x.Recv.List) == 1 {
-							for _, n := range x.Recv.List[0].Names {
-								w.vars[n.Name] = baseTypeName(x.Recv.List[0].Type)
-							}
-						}
-						w.declareParams(x.Type)
-						w.block(x.Body.List)
 					}
 				}
+				for _, e := range ents {
+					if e.IsDir() || !strings.HasSuffix(e.Name(), ".go") || strings.HasSuffix(e.Name(), "_test.go") {
+						continue
+					}
+					rel := filepath.Join(sp.dir, e.Name())
+					f := parseFile(rp(rel))
+					for _, d := range f.Decls {
+						switch x := d.(type) {
+						case *ast.GenDecl:
+							for _, s := range x.Specs {
+								ts, ok := s.(*ast.TypeSpec)
+								if !ok || ts.Name.Name != sp.typ {
+									continue
+								}
+								st, ok := ts.Type.(*ast.StructType)
+								if !ok {
+									panic(bail{fmt.Sprintf("%s: %s is not a struct", rel, sp.typ)})
+								}
+								have := map[string]string{}
+								for _, fl := range st.Fields.List {
+									for _, n := range fl.Names {
+										have[n.Name] = src(fl.Type)
+									}
+								}
+								mt, ok := have[sp.mutex]
+								if !ok || (mt != "sync.Mutex" && mt != "sync.RWMutex") {
+									panic(bail{fmt.Sprintf("%s: %s.%s is not a sync.Mutex/RWMutex (%q)", rel, sp.typ, sp.mutex, mt)})
+								}
+								for _, g := range sp.fields {
+									if _, ok := have[g]; !ok {
+										panic(bail{fmt.Sprintf("%s: %s has no field %s", rel, sp.typ, g)})
+									}
+								}
+								foundType = true
+							}
+						case *ast.FuncDecl:
+							if x.Body == nil {
+								continue
+							}
+							w := &lockWalker{spec: sp, rel: rel, vars: map[string]string{}, ftyp: ftyp, fn: funcQualName(x), rows: &specRows, calls: calls}
+							w.held = entry[w.fn]
+							for _, c := range sp.ctors {
+								if c == w.fn {
+									w.ctor = true
+									foundCtors[c] = true
+								}
+							}
+							if x.Recv != nil && len(x.Recv.List) == 1 {
+								for _, n := range x.Recv.List[0].Names {
+									w.vars[n.Name] = baseTypeName(x.Recv.List[0].Type)
+								}
+							}
+							w.declareParams(x.Type)
+							w.block(x.Body.List)
+						}
+					}
+				}
+				changed := false
+				for callee, modes := range calls {
+					name := callee[strings.Index(callee, ".")+1:]
+					if name == "" || !(name[0] >= 'a' && name[0] <= 'z') {
+						continue // exported methods can be called from anywhere: no lock on entry
+					}
+					m := modes[0]
+					for _, x := range modes {
+						if x < m {
+							m = x
+						}
+					}
+					if entry[callee] != m {
+						entry[callee] = m
+						changed = true
+					}
+				}
+				if !changed {
+					break
+				}
 			}
+			rows = append(rows, specRows...)
 			if !foundType {
 				panic(bail{fmt.Sprintf("%s: struct %s not found", sp.dir, sp.typ)})
 			}
@@ -1024,79 +1108,242 @@ func unlistedSharedWrites() func() string {
 	}
 }
 
-// rootChoiceFacts anchors the model's `chooseRoot` / pending-logs call to Distributor.addSomeChain: the closure
-// compatibleLogsAndChain must consist of exactly the statements below; the last return (the fallback when the chain does
-// not verify against the merged pool and root data is incomplete) has two accepted forms, which set
-// Policy.fallbackKeepsKnownRootLogs.
+// rootChoiceFacts anchors the model's `chooseRoot` / pending-logs call to Distributor.addSomeChain by what the code
+// does, not by its text: local names, hoisted reads (resolved through single-assignment aliases) and statement splitting do
+// not matter. In the closure that calls ctfe.ValidateChain, in this order:
+//  1. `if d.rootCompatibilityCheckDisabled` returns <usable list>.Compatible(_, nil, <empty roots>)
+//  2. after ValidateChain: `if err == nil` returns <usable list>.Compatible(_, <non-nil root>, d.logRoots)
+//  3. `if d.rootDataFull` returns an error
+//  4. the fallback returns <usable list>.Compatible(_, nil, d.logRoots)            (fallbackKeepsKnownRootLogs = true)
+//     or <usable list>.TemporallyCompatible(_).RootCompatible(nil, d.logRoots)     (= false)
 func rootChoiceFacts(rel string) func() string {
 	return func() string {
 		fd := mustFunc(rel, "Distributor.addSomeChain")
 		var lit *ast.FuncLit
-		for _, st := range fd.Body.List {
-			if a, ok := st.(*ast.AssignStmt); ok && len(a.Lhs) == 1 && src(a.Lhs[0]) == "compatibleLogsAndChain" {
-				lit, _ = a.Rhs[0].(*ast.FuncLit)
-			}
-		}
-		if lit == nil {
-			panic(bail{rel + ": closure compatibleLogsAndChain not found in addSomeChain"})
-		}
-		var got []string
-		for _, st := range lit.Body.List {
-			got = append(got, src(st))
-		}
-		head := []string{
-			"parsedChain, err := parseRawChain(rawChain)",
-			"if err != nil { return loglist3.LogList{}, nil, fmt.Errorf(\"distributor unable to parse cert-chain: %v\", err) }",
-			"if d.rootCompatibilityCheckDisabled { return d.usableLl.Compatible(parsedChain[0], nil, loglist3.LogRoots{}), parsedChain, nil }",
-			"d.mu.RLock()",
-			"defer d.mu.RUnlock()",
-			"vOpts := ctfe.NewCertValidationOpts(d.rootPool, time.Time{}, false, false, nil, nil, false, nil)",
-			"rootedChain, err := ctfe.ValidateChain(rawChain, vOpts)",
-			"if err == nil { return d.usableLl.Compatible(rootedChain[0], rootedChain[len(rootedChain)-1], d.logRoots), rootedChain, nil }",
-			"if d.rootDataFull { return loglist3.LogList{}, nil, fmt.Errorf(\"distributor unable to process cert-chain: %w\", err) }",
-		}
-		tailKeep := []string{"return d.usableLl.Compatible(parsedChain[0], nil, d.logRoots), parsedChain, nil"}
-		tailDrop := []string{"temporal := d.usableLl.TemporallyCompatible(parsedChain[0])", "return temporal.RootCompatible(nil, d.logRoots), parsedChain, nil"}
-		match := func(want []string) bool {
-			if len(got) != len(want) {
+		ast.Inspect(fd.Body, func(n ast.Node) bool {
+			if fl, ok := n.(*ast.FuncLit); ok && lit == nil && strings.Contains(src(fl.Body), "ctfe.ValidateChain(") {
+				lit = fl
 				return false
 			}
-			for i := range want {
-				if got[i] != want[i] {
-					return false
+			return true
+		})
+		if lit == nil {
+			panic(bail{rel + ": no closure calling ctfe.ValidateChain in addSomeChain"})
+		}
+		// single-assignment aliases of the whole function: local -> defining expression
+		alias := map[string]ast.Expr{}
+		count := map[string]int{}
+		ast.Inspect(fd.Body, func(n ast.Node) bool {
+			if a, ok := n.(*ast.AssignStmt); ok && len(a.Lhs) == len(a.Rhs) {
+				for k, l := range a.Lhs {
+					if id, ok := l.(*ast.Ident); ok {
+						count[id.Name]++
+						alias[id.Name] = a.Rhs[k]
+					}
+				}
+			} else if ok {
+				for _, l := range a.Lhs {
+					if id, ok := l.(*ast.Ident); ok {
+						count[id.Name] += 2 // multi-value: not an alias
+					}
 				}
 			}
 			return true
-		}
-		keep := ""
-		switch {
-		case match(append(append([]string{}, head...), tailKeep...)):
-			keep = "true"
-		case match(append(append([]string{}, head...), tailDrop...)):
-			keep = "false"
-		default:
-			for i, g := range got {
-				if i >= len(head) || g != head[i] {
-					panic(bail{fmt.Sprintf("%s: compatibleLogsAndChain statement %d is `%s` (not one of the accepted forms)", rel, i, g)})
+		})
+		var resolve func(e ast.Expr, depth int) string
+		resolve = func(e ast.Expr, depth int) string {
+			if id, ok := e.(*ast.Ident); ok && depth < 4 && count[id.Name] == 1 {
+				if d, ok := alias[id.Name]; ok {
+					return resolve(d, depth+1)
 				}
 			}
-			panic(bail{rel + ": compatibleLogsAndChain has an unexpected shape"})
+			if p, ok := e.(*ast.ParenExpr); ok {
+				return resolve(p.X, depth)
+			}
+			return src(e)
 		}
-		// the pending-logs call: started only with loadPendingLogs, on d.pendingQualifiedLl unfiltered
+		// the list-filter call at the head of a return: (method, receiver resolved, args resolved)
+		type fcall struct {
+			method, recv string
+			args         []string
+			recvCall     *ast.CallExpr
+		}
+		headCall := func(r *ast.ReturnStmt) *fcall {
+			if len(r.Results) == 0 {
+				return nil
+			}
+			e := r.Results[0]
+			if id, ok := e.(*ast.Ident); ok && count[id.Name] == 1 {
+				e = alias[id.Name]
+			}
+			c, ok := e.(*ast.CallExpr)
+			if !ok {
+				return nil
+			}
+			sel, ok := c.Fun.(*ast.SelectorExpr)
+			if !ok {
+				return nil
+			}
+			fc := &fcall{method: sel.Sel.Name, recv: resolve(sel.X, 0)}
+			rx := sel.X
+			if id, ok := rx.(*ast.Ident); ok && count[id.Name] == 1 {
+				rx = alias[id.Name]
+			}
+			fc.recvCall, _ = rx.(*ast.CallExpr)
+			for _, a := range c.Args {
+				fc.args = append(fc.args, resolve(a, 0))
+			}
+			return fc
+		}
+		lastReturn := func(b []ast.Stmt) *ast.ReturnStmt {
+			if len(b) == 0 {
+				return nil
+			}
+			r, _ := b[len(b)-1].(*ast.ReturnStmt)
+			return r
+		}
+		stage, keep := 0, ""
+		fail := func(what string) {
+			panic(bail{fmt.Sprintf("%s: addSomeChain's chain/root selection: %s", rel, what)})
+		}
+		sawValidate := false
+		for _, st := range lit.Body.List {
+			if strings.Contains(src(st), "ctfe.ValidateChain(") {
+				if _, isIf := st.(*ast.IfStmt); !isIf {
+					sawValidate = true
+				}
+			}
+			switch x := st.(type) {
+			case *ast.IfStmt:
+				cond := resolve(x.Cond, 0)
+				if x.Init != nil && strings.Contains(src(x.Init), "ctfe.ValidateChain(") {
+					sawValidate = true
+				}
+				r := lastReturn(x.Body.List)
+				switch {
+				case cond == "d.rootCompatibilityCheckDisabled":
+					fc := (*fcall)(nil)
+					if r != nil {
+						fc = headCall(r)
+					}
+					if stage != 0 || sawValidate || fc == nil || fc.method != "Compatible" || fc.recv != "d.usableLl" || len(fc.args) != 3 || fc.args[1] != "nil" || fc.args[2] != "loglist3.LogRoots{}" {
+						fail("the check-disabled branch does not return d.usableLl.Compatible(_, nil, loglist3.LogRoots{})")
+					}
+					stage = 1
+				case cond == "err == nil" && sawValidate:
+					fc := (*fcall)(nil)
+					if r != nil {
+						fc = headCall(r)
+					}
+					if stage != 1 || fc == nil || fc.method != "Compatible" || fc.recv != "d.usableLl" || len(fc.args) != 3 || fc.args[1] == "nil" || fc.args[2] != "d.logRoots" {
+						fail("the chain-verifies branch does not return d.usableLl.Compatible(_, root, d.logRoots)")
+					}
+					stage = 2
+				case cond == "d.rootDataFull":
+					if stage != 2 || r == nil || len(r.Results) == 0 || src(r.Results[len(r.Results)-1]) == "nil" {
+						fail("the root-data-complete branch does not return an error after the verification failed")
+					}
+					stage = 3
+				}
+			case *ast.ReturnStmt:
+				fc := headCall(x)
+				if stage != 3 || fc == nil {
+					fail("unexpected return " + src(x))
+				}
+				switch {
+				case fc.method == "Compatible" && fc.recv == "d.usableLl" && len(fc.args) == 3 && fc.args[1] == "nil" && fc.args[2] == "d.logRoots":
+					keep = "true"
+				case fc.method == "RootCompatible" && len(fc.args) == 2 && fc.args[0] == "nil" && fc.args[1] == "d.logRoots" && fc.recvCall != nil &&
+					strings.HasPrefix(src(fc.recvCall.Fun), "d.usableLl.TemporallyCompatible"):
+					keep = "false"
+				default:
+					fail("the fallback return is neither Compatible(_, nil, d.logRoots) nor TemporallyCompatible(_).RootCompatible(nil, d.logRoots): " + src(x))
+				}
+				stage = 4
+			}
+		}
+		if stage != 4 {
+			fail(fmt.Sprintf("only %d of the 4 branches found", stage))
+		}
+		// the pending-logs call: under `if loadPendingLogs`, LogsByGroup(_, d.pendingQualifiedLl) of the pending policy feeds GetSCTs(ctx, d, chain, asPreChain, ·)
 		pend := findStmts(fd, func(st ast.Stmt) bool {
 			i, ok := st.(*ast.IfStmt)
 			return ok && src(i.Cond) == "loadPendingLogs"
 		})
-		if len(pend) != 1 || !strings.Contains(src(pend[0]), "d.pendingLogsPolicy.LogsByGroup(parsedChain[0], d.pendingQualifiedLl)") ||
-			!strings.Contains(src(pend[0]), "GetSCTs(ctx, d, chain, asPreChain, pendingGroup)") {
-			panic(bail{rel + ": the loadPendingLogs block of addSomeChain has an unexpected shape"})
+		if len(pend) != 1 {
+			fail("no single `if loadPendingLogs` block")
 		}
+		okGroups, okCall := "", false
+		ast.Inspect(pend[0], func(n ast.Node) bool {
+			switch x := n.(type) {
+			case *ast.AssignStmt:
+				if len(x.Rhs) == 1 {
+					if c, ok := x.Rhs[0].(*ast.CallExpr); ok && src(c.Fun) == "d.pendingLogsPolicy.LogsByGroup" && len(c.Args) == 2 && resolve(c.Args[1], 0) == "d.pendingQualifiedLl" {
+						okGroups = src(x.Lhs[0])
+					}
+				}
+			case *ast.CallExpr:
+				if src(x.Fun) == "GetSCTs" && len(x.Args) == 5 && src(x.Args[1]) == "d" && okGroups != "" && src(x.Args[4]) == okGroups {
+					okCall = true
+				}
+			}
+			return true
+		})
+		if !okCall {
+			fail("the loadPendingLogs block does not run GetSCTs(ctx, d, …, groups) on d.pendingLogsPolicy.LogsByGroup(_, d.pendingQualifiedLl)")
+		}
+		// NewDistributor: which statuses feed d.usableLl / d.pendingQualifiedLl
 		nd := mustFunc(rel, "NewDistributor")
-		if !strings.Contains(src(nd), "usableStat := []loglist3.LogStatus{loglist3.UsableLogStatus}") ||
-			!strings.Contains(src(nd), "pendingQualifiedStat := []loglist3.LogStatus{ loglist3.PendingLogStatus, loglist3.QualifiedLogStatus}") {
-			panic(bail{rel + ": NewDistributor's status selections have an unexpected shape"})
+		nalias := map[string]ast.Expr{}
+		ast.Inspect(nd.Body, func(n ast.Node) bool {
+			if a, ok := n.(*ast.AssignStmt); ok && len(a.Lhs) == 1 && len(a.Rhs) == 1 {
+				if id, ok := a.Lhs[0].(*ast.Ident); ok {
+					nalias[id.Name] = a.Rhs[0]
+				}
+			}
+			return true
+		})
+		statuses := map[string]string{}
+		ast.Inspect(nd.Body, func(n ast.Node) bool {
+			a, ok := n.(*ast.AssignStmt)
+			if !ok || len(a.Lhs) != 1 || len(a.Rhs) != 1 {
+				return true
+			}
+			field := src(a.Lhs[0])
+			if field != "d.usableLl" && field != "d.pendingQualifiedLl" {
+				return true
+			}
+			e := a.Rhs[0]
+			if u, ok := e.(*ast.UnaryExpr); ok && u.Op == token.AND {
+				e = u.X
+			}
+			if id, ok := e.(*ast.Ident); ok {
+				e = nalias[id.Name]
+			}
+			c, ok := e.(*ast.CallExpr)
+			if !ok || !strings.HasSuffix(src(c.Fun), ".SelectByStatus") || len(c.Args) != 1 {
+				return true
+			}
+			arg := c.Args[0]
+			if id, ok := arg.(*ast.Ident); ok {
+				arg = nalias[id.Name]
+			}
+			cl, ok := arg.(*ast.CompositeLit)
+			if !ok {
+				return true
+			}
+			var els []string
+			for _, el := range cl.Elts {
+				els = append(els, src(el))
+			}
+			sort.Strings(els)
+			statuses[field] = strings.Join(els, ",")
+			return true
+		})
+		if statuses["d.usableLl"] != "loglist3.UsableLogStatus" || statuses["d.pendingQualifiedLl"] != "loglist3.PendingLogStatus,loglist3.QualifiedLogStatus" {
+			fail(fmt.Sprintf("NewDistributor selects %v", statuses))
 		}
-		return fmt.Sprintf("/-- generated from %s func Distributor.addSomeChain (closure compatibleLogsAndChain, checked statement by statement):\n"+
+		return fmt.Sprintf("/-- generated from %s func Distributor.addSomeChain (the closure that calls ctfe.ValidateChain, checked branch by branch):\n"+
 			"    check disabled ⇒ Compatible(cert, nil, {}); chain verifies against the merged pool ⇒ Compatible(cert, root, logRoots);\n"+
 			"    otherwise rootDataFull ⇒ error; otherwise the fallback, which either keeps the logs with known roots\n"+
 			"    (`Compatible(cert, nil, logRoots)`) or drops them (`TemporallyCompatible(cert).RootCompatible(nil, logRoots)`).\n"+
